@@ -14,6 +14,7 @@ THEOREMS = [
     'Sourcer.C06_more_fuel_same_outcome',
     'Sourcer.C05_flat_locals_realise_lexical_scoping',
     'Tie.binders_agree',
+    'Tie.names_flags_conservative',
 ]
 TIE_MODULES = ['Tie.Binders']
 TRANSLATORS = ('binders',)
